@@ -44,12 +44,22 @@ Second output file coq/Gen/Kernels2.v (KERNELS2, always bounds-checked; Kernels.
          or imported by `from .mod import f`: the callee returns (value, arrays it stores into ..., ok__); the caller
          rebinds the arrays it passed and conjoins the flag.  `return a` / `return (a, b)` of stored array parameters in
          a procedure = end of procedure.
+
+Third output file coq/Gen/Kernels3.v (KERNELS3; same mode; Kernels.v and Kernels2.v stay byte-identical; may call the
+bounds-checked kernels of Kernels.v, e.g. searchsorted, and the kernels of Kernels2.v).  Additional constructs:
+  MZ (2-d integer array), `for i in range(a, b, -1)`, np.sum(a) / np.sum(a[i, lo:hi]) / np.sum(a[lo:hi]) (nsum1),
+  a[-c] on 1-d arrays (wraparound), read-only views bound to a local name `row = M[i]`, `seg = a[lo:hi]` (slice1),
+  `x[i, j] = f(..)` with f a generated kernel (via a temporary), `A = np.asarray(A)` (no-op), local `np.empty((n, m))`,
+  `a[:, j] = v` (setcol2), np.arange(n), imports followed through package __init__ files, and two library operations
+  that are not Python text and become extra (function) parameters of the generated kernel:
+  `r.sort()` -> sort_ : list T -> list T,  `np.intp(np.floor(x * k))` -> floor_mul_ : T -> Z -> Z.
 """
 import ast, os, sys
 
 REPO = os.environ.get("VERIF_REPO", "/repo")
 OUT = os.path.join(os.path.dirname(os.path.abspath(__file__)), "..", "coq", "Gen", "Kernels.v")
 OUT2 = os.path.join(os.path.dirname(os.path.abspath(__file__)), "..", "coq", "Gen", "Kernels2.v")
+OUT3 = os.path.join(os.path.dirname(os.path.abspath(__file__)), "..", "coq", "Gen", "Kernels3.v")
 
 # (coq name, file, python function, parameter types, return type or None for procedures,
 #  {while-loop ordinal: fuel expr in Coq}, checked)
@@ -115,12 +125,30 @@ KERNELS2 += [
                  ("tableau", "MT"), ("basis", "LZ"), ("z", "LT")],
          rtype=("B", "Z", "Z"), fuels={0: "Z.to_nat (max_iter - 1)"}, result_nt="LCPResult"),
 ]
+# Kernels3.v (same translator mode as Kernels2.v; may call kernels of Kernels.v and Kernels2.v)
+KERNELS3 = [
+    dict(cname="gth_solve_jit", file="quantecon/markov/gth_solve.py", py="_gth_solve_jit",
+         params=[("A", "MT"), ("out", "LT")], rtype=None, fuels={}),
+    dict(cname="solve_phase_1", file=LPS, py="solve_phase_1",
+         params=[("tableau", "MT"), ("basis", "LZ"), ("max_iter", "Z"), ("piv_options", "PO")], rtype=("B", "Z", "Z"), fuels={}),
+    dict(cname="probvec", file="quantecon/random/utilities.py", py="_probvec",
+         params=[("r", "LT"), ("out", "LT")], rtype=None, fuels={}),
+    dict(cname="sample_without_replacement", file="quantecon/random/utilities.py", py="_sample_without_replacement",
+         params=[("n", "Z"), ("r", "LT"), ("out", "LZ")], rtype=None, fuels={}),
+    dict(cname="simulate_linear_model", file="quantecon/_lss.py", py="simulate_linear_model",
+         params=[("A", "MT"), ("x0", "LT"), ("v", "MT"), ("ts_length", "Z")], rtype="MT", fuels={}),
+    dict(cname="generate_sample_paths", file="quantecon/markov/core.py", py="_generate_sample_paths",
+         params=[("P_cdfs", "MT"), ("init_states", "LZ"), ("random_values", "MT"), ("out", "MZ")], rtype=None, fuels={}),
+    dict(cname="generate_sample_paths_sparse", file="quantecon/markov/core.py", py="_generate_sample_paths_sparse",
+         params=[("P_cdfs1d", "LT"), ("indices", "LZ"), ("indptr", "LZ"), ("init_states", "LZ"), ("random_values", "MT"),
+                 ("out", "MZ")], rtype=None, fuels={}),
+]
 # PO: the namedtuple PivOptions(fea_tol, tol_piv, tol_ratio_diff), flattened into three element parameters
 PO_FIELDS = ["fea_tol", "tol_piv", "tol_ratio_diff"]
 PO_DEFAULTS = ["FEA_TOL", "TOL_PIV", "TOL_RATIO_DIFF"]     # PivOptions.__new__.__defaults__ (checked in generate2)
 CALLABLE = {}
 CALL2 = {}    # python name -> dict(coq, params, rtype, outs, amb, defaults, modconsts)
-COQTY = {"Z": "Z", "T": "T", "B": "bool", "LT": "list T", "LZ": "list Z", "MT": "list (list T)", "LB": "list bool"}
+COQTY = {"Z": "Z", "T": "T", "B": "bool", "LT": "list T", "LZ": "list Z", "MT": "list (list T)", "LB": "list bool", "MZ": "list (list Z)"}
 ELT = {"LT": "T", "LZ": "Z"}
 
 
@@ -169,6 +197,27 @@ Definition fill1 {A} (r : list A) (s : dimsel) (v : A) : list A :=
 Definition fill2 {A} (a : list (list A)) (rs cs : dimsel) (v : A) : list (list A) :=
   mapz_from (fun i row => if (sel_lo rs (length a) <=? i) && (i <? sel_hi rs (length a)) then fill1 row cs v else row) 0 a.
 """
+
+PRELUDE3 = """(* np.sum of a 1-d array (numba: acc = 0; for v in a: acc += v) and the 1-d view r[lo:hi] *)
+Definition nsum1 {T : Type} `{Num T} (l : list T) : T := fold_left nadd l nzero.
+Definition slice1 {A} (r : list A) (s : dimsel) : list A :=
+  firstn (Z.to_nat (sel_hi s (length r) - sel_lo s (length r))) (skipn (Z.to_nat (sel_lo s (length r))) r).
+(* a[:, j] = v : one entry of v per row (NumPy requires len(v) = number of rows; column j wrapped as usual) *)
+Definition setcol2 {T : Type} `{Num T} (a : list (list T)) (j : Z) (v : list T) : list (list T) :=
+  mapz_from (fun i row => upd_nth row (Z.to_nat (widx j (length row))) (nth (Z.to_nat i) v nzero)) 0 a.
+Definition setcol2_ok {A} (a : list (list A)) (j : Z) (v : list A) : bool :=
+  (length v =? length a)%nat && forallb (fun row => inb (widx j (length row)) row) a.
+(* entry of a 2-d integer array *)
+Definition get2z (a : list (list Z)) (i j : Z) : Z :=
+  nth (Z.to_nat (widx j (length (row2 a i)))) (row2 a i) 0.
+"""
+
+
+AMB_TYPES = {"floor_mul_": "T -> Z -> Z", "sort_": "list T -> list T"}     # ambient parameters that are not elements
+
+
+def amb_type(a):
+    return AMB_TYPES.get(a, "T")
 
 
 class Unsupported(Exception):
@@ -240,13 +289,13 @@ class Tr:
         if isinstance(e, ast.Subscript):
             if self.v2 and self.shape_of(e.value):
                 arr = self.shape_of(e.value)
-                if isinstance(e.slice, ast.Constant) and e.slice.value in ((0, 1) if self.types[arr] == "MT" else (0,)):
+                if isinstance(e.slice, ast.Constant) and e.slice.value in ((0, 1) if self.types[arr] in ("MT", "MZ") else (0,)):
                     return "Z"
                 raise Unsupported("shape component %s" % ast.unparse(e))
             t = self.ty(e.value)
-            if self.v2 and t == "MT":
+            if self.v2 and t in ("MT", "MZ"):
                 if isinstance(e.slice, ast.Tuple) and len(e.slice.elts) == 2 and all(self.ty(x) == "Z" for x in e.slice.elts):
-                    return "T"
+                    return "T" if t == "MT" else "Z"
                 raise Unsupported("2-d subscript %s" % ast.unparse(e))
             if self.v2 and t == "LB" and self.ty(e.slice) == "Z":
                 return "B"
@@ -277,11 +326,19 @@ class Tr:
             return "T"
         if self.v2 and self.np_empty_int(e) is not None:
             return "LZ"
+        if self.v2 and self.np_empty2(e) is not None:
+            return "MT"
+        if self.v2 and self.np_arange(e) is not None:
+            return "LZ"
+        if self.v2 and self.floor_mul(e) is not None:
+            return "Z"
         if self.v2 and isinstance(e, ast.Attribute) and e.attr == "size" and isinstance(e.value, ast.Name) \
                 and self.types.get(e.value.id) in ("LT", "LZ"):
             return "Z"
         if self.v2 and self.all_nonneg(e):
             return "B"
+        if self.v2 and self.np_sum(e) is not None:
+            return "T"
         if isinstance(e, ast.UnaryOp) and isinstance(e.op, ast.USub):
             return self.ty(e.operand)
         if isinstance(e, ast.Call):
@@ -312,7 +369,7 @@ class Tr:
     def shape_of(self, e):
         """e is `a.shape` of an array variable: its name, else None"""
         if isinstance(e, ast.Attribute) and e.attr == "shape" and isinstance(e.value, ast.Name) \
-                and self.types.get(e.value.id) in ("MT", "LT", "LZ"):
+                and self.types.get(e.value.id) in ("MT", "MZ", "LT", "LZ"):
             return e.value.id
         return None
 
@@ -323,6 +380,26 @@ class Tr:
             if isinstance(c, ast.Compare) and len(c.ops) == 1 and isinstance(c.ops[0], ast.GtE) and isinstance(c.left, ast.Name) \
                     and self.types.get(c.left.id) == "LT" and self.intlit(c.comparators[0]) == 0:
                 return c.left.id
+        return None
+
+    def np_sum(self, e):
+        """e is np.sum(a) / np.sum(a[i, lo:hi]) / np.sum(a[lo:hi]) over elements: (Coq list expression, bounds flag or None)"""
+        if not (isinstance(e, ast.Call) and ast.unparse(e.func) == "np.sum" and len(e.args) == 1 and not e.keywords):
+            return None
+        a = e.args[0]
+        if isinstance(a, ast.Name) and self.types.get(a.id) == "LT":
+            return a.id, None
+        if isinstance(a, ast.Subscript) and isinstance(a.value, ast.Name):
+            t = self.types.get(a.value.id)
+            if t == "LT" and isinstance(a.slice, ast.Slice):
+                return "(slice1 %s %s)" % (a.value.id, self.dimsel(a.slice)), None
+            if t == "MT" and isinstance(a.slice, ast.Tuple) and len(a.slice.elts) == 2 \
+                    and not isinstance(a.slice.elts[0], ast.Slice) and isinstance(a.slice.elts[1], ast.Slice):
+                i = a.slice.elts[0]
+                if self.ty(i) != "Z" or self.reads_ok(i):
+                    raise Unsupported("row index in %s" % ast.unparse(e))
+                return ("(slice1 (row2 %s %s) %s)" % (a.value.id, self.ex(i), self.dimsel(a.slice.elts[1])),
+                        "inb (widx %s (length %s)) %s" % (self.ex(i), a.value.id, a.value.id))
         return None
 
     def po_field(self, e):
@@ -340,10 +417,63 @@ class Tr:
             return e.args[0]
         return None
 
+    def sort_call(self, e):
+        if isinstance(e, ast.Call) and not e.args and not e.keywords and isinstance(e.func, ast.Attribute) and e.func.attr == "sort" \
+                and isinstance(e.func.value, ast.Name) and self.types.get(e.func.value.id) == "LT":
+            return e.func.value.id
+        return None
+
+    def np_arange(self, e):
+        if isinstance(e, ast.Call) and ast.unparse(e.func) == "np.arange" and len(e.args) == 1 and not e.keywords \
+                and self.ty(e.args[0]) == "Z":
+            return e.args[0]
+        return None
+
+    def floor_mul(self, e):
+        """np.intp(np.floor(a * b)) with a an element and b an integer: (a, b).  The integer-valued floor of the
+        mixed product is the extra parameter floor_mul_ : T -> Z -> Z of the generated kernel"""
+        if isinstance(e, ast.Call) and ast.unparse(e.func) == "np.intp" and len(e.args) == 1 and not e.keywords:
+            f = e.args[0]
+            if isinstance(f, ast.Call) and ast.unparse(f.func) == "np.floor" and len(f.args) == 1 and not f.keywords \
+                    and isinstance(f.args[0], ast.BinOp) and isinstance(f.args[0].op, ast.Mult):
+                a, b = f.args[0].left, f.args[0].right
+                try:
+                    if self.ty(a) == "T" and self.ty(b) == "Z":
+                        return a, b
+                except Unsupported:
+                    return None
+        return None
+
+    def np_empty2(self, e):
+        """e is `np.empty((n, m))` (float64): the two size expressions, else None"""
+        if isinstance(e, ast.Call) and ast.unparse(e.func) == "np.empty" and len(e.args) == 1 and not e.keywords \
+                and isinstance(e.args[0], ast.Tuple) and len(e.args[0].elts) == 2 and all(self.ty(x) == "Z" for x in e.args[0].elts):
+            return e.args[0].elts
+        return None
+
     def shape_ex(self, arr, k):
-        if self.types[arr] == "MT":
+        if self.types[arr] in ("MT", "MZ"):
             return "(%s %s)" % ("nrows2" if k == 0 else "ncols2", arr)
         return "(Z.of_nat (length %s))" % arr
+
+    def negconst(self, e):
+        return isinstance(e, ast.UnaryOp) and isinstance(e.op, ast.USub) and isinstance(e.operand, ast.Constant) \
+            and type(e.operand.value) is int and e.operand.value > 0
+
+    def view(self, e):
+        """read-only views bound to a local name: M[i] (row of a 2-d array) and a[lo:hi] (1-d slice):
+        (Coq text, type, expressions whose reads must be guarded, extra bounds flags) or None"""
+        if not (isinstance(e, ast.Subscript) and isinstance(e.value, ast.Name)):
+            return None
+        t = self.types.get(e.value.id)
+        if t in ("MT", "MZ") and not isinstance(e.slice, (ast.Tuple, ast.Slice)) and self.ty(e.slice) == "Z":
+            i = self.ex(e.slice)
+            return ("(row2 %s %s)" % (e.value.id, i), "LT" if t == "MT" else "LZ", [e.slice],
+                    ["inb (widx %s (length %s)) %s" % (i, e.value.id, e.value.id)])
+        if t in ("LT", "LZ") and isinstance(e.slice, ast.Slice):
+            return ("(slice1 %s %s)" % (e.value.id, self.dimsel(e.slice, allow_reads=True)), t,
+                    [b for b in (e.slice.lower, e.slice.upper) if b is not None], [])
+        return None
 
     def intlit(self, e):
         """int literal 0 / 1 / -1 (element context): its value, else None"""
@@ -395,6 +525,16 @@ class Tr:
             return "(Z.of_nat (length %s))" % e.value.id
         if self.v2 and self.all_nonneg(e):
             return "(forallb (fun x__ => nleb nzero x__) %s)" % self.all_nonneg(e)
+        if self.v2 and self.np_sum(e) is not None:
+            return "(nsum1 %s)" % self.np_sum(e)[0]
+        if self.v2 and self.np_arange(e) is not None:
+            return "(map Z.of_nat (seq 0 (Z.to_nat %s)))" % self.ex(self.np_arange(e))
+        if self.v2 and self.floor_mul(e) is not None:
+            a, b = self.floor_mul(e)
+            return "(%s %s %s)" % (self.use_amb("floor_mul_"), self.ex(a), self.ex(b))
+        if self.v2 and self.np_empty2(e) is not None:
+            a, b = self.np_empty2(e)    # uninitialised memory: modelled as zeros
+            return "(repeat (repeat nzero (Z.to_nat %s)) (Z.to_nat %s))" % (self.ex(b), self.ex(a))
         if self.v2 and self.np_empty_int(e) is not None:
             # uninitialised memory: modelled as zeros; consumers' tie lemmas hold for ANY contents of that length
             return "(repeat 0 (Z.to_nat %s))" % self.ex(self.np_empty_int(e))
@@ -404,17 +544,21 @@ class Tr:
         if self.v2 and isinstance(e, ast.Subscript) and self.shape_of(e.value):
             self.ty(e)
             return self.shape_ex(self.shape_of(e.value), e.slice.value)
-        if self.v2 and isinstance(e, ast.Subscript) and self.ty(e.value) == "MT":
+        if self.v2 and isinstance(e, ast.Subscript) and self.ty(e.value) in ("MT", "MZ"):
             self.ty(e)
-            return "(get2 %s %s %s)" % (self.ex(e.value), self.ex(e.slice.elts[0]), self.ex(e.slice.elts[1]))
+            return "(%s %s %s %s)" % ("get2" if self.ty(e.value) == "MT" else "get2z", self.ex(e.value),
+                                      self.ex(e.slice.elts[0]), self.ex(e.slice.elts[1]))
         if isinstance(e, ast.Subscript):
             t = self.ty(e.value)
             idx = e.slice
             if self.ty(idx) != "Z":
                 raise Unsupported("index type in %s" % ast.unparse(e))
+            d = "nzero" if t == "LT" else "0"
+            if self.v2 and self.negconst(idx):
+                # a[-c]: counted from the end (NumPy/Numba wraparound)
+                return "(nth (Z.to_nat (widx %s (length %s))) %s %s)" % (self.ex(idx), self.ex(e.value), self.ex(e.value), d)
             if isinstance(idx, ast.UnaryOp) or (isinstance(idx, ast.Constant) and idx.value < 0):
                 raise Unsupported("negative index")
-            d = "nzero" if t == "LT" else "0"
             return "(nth (Z.to_nat %s) %s %s)" % (self.ex(idx), self.ex(e.value), d)
         if isinstance(e, ast.BinOp):
             t = self.ty(e)
@@ -499,11 +643,15 @@ class Tr:
                     acc = "(%s && (%s))" % (okv, guard) if okv else "(%s)" % guard
             return acc
         oks = []
+        if self.v2 and self.np_sum(e) is not None:
+            return self.np_sum(e)[1] and "(%s)" % self.np_sum(e)[1]
         if self.v2 and isinstance(e, ast.Subscript) and self.shape_of(e.value):
             return None
         if self.v2 and isinstance(e, ast.Subscript) and isinstance(e.slice, ast.Tuple):
             self.ty(e)
             oks.append("inb2 %s %s %s" % (self.ex(e.slice.elts[0]), self.ex(e.slice.elts[1]), self.ex(e.value)))
+        elif self.v2 and isinstance(e, ast.Subscript) and self.negconst(e.slice):
+            oks.append("inb (widx %s (length %s)) %s" % (self.ex(e.slice), self.ex(e.value), self.ex(e.value)))
         elif isinstance(e, ast.Subscript):
             oks.append("inb %s %s" % (self.ex(e.slice), self.ex(e.value)))
         for ch in ast.iter_child_nodes(e):
@@ -540,6 +688,10 @@ class Tr:
                             if not isinstance(a, ast.Name):
                                 raise Unsupported("stored array argument %s" % ast.unparse(a))
                             add(a.id)
+                if self.v2 and isinstance(n, ast.Assign) and isinstance(n.value, ast.Call) and ast.unparse(n.value.func) == "np.asarray":
+                    continue
+                if self.v2 and isinstance(n, ast.Expr) and self.sort_call(n.value):
+                    add(self.sort_call(n.value))
                 if isinstance(n, (ast.Assign, ast.AugAssign)):
                     tgts = n.targets if isinstance(n, ast.Assign) else [n.target]
                     if self.v2:
@@ -623,8 +775,38 @@ class Tr:
                 value = ast.BinOp(left=tgt, op=s.op, right=s.value)
             else:
                 value = s.value
+            if self.v2 and isinstance(s, ast.Assign) and isinstance(tgt, ast.Name) and isinstance(value, ast.Call) \
+                    and ast.unparse(value.func) == "np.asarray" and len(value.args) == 1 and not value.keywords \
+                    and isinstance(value.args[0], ast.Name) and value.args[0].id == tgt.id \
+                    and self.types.get(tgt.id) in ("MT", "LT", "LZ", "MZ"):
+                return self.stmts(rest, k)
+            if self.v2 and isinstance(s, ast.Assign) and isinstance(tgt, ast.Subscript) and isinstance(tgt.value, ast.Name) \
+                    and self.types.get(tgt.value.id) == "MT" and isinstance(tgt.slice, ast.Tuple) and len(tgt.slice.elts) == 2 \
+                    and isinstance(tgt.slice.elts[0], ast.Slice) and ast.unparse(tgt.slice.elts[0]) == ":" \
+                    and not isinstance(tgt.slice.elts[1], ast.Slice) and isinstance(value, ast.Name) and self.types.get(value.id) == "LT":
+                # a[:, j] = v  (v a vector with one entry per row)
+                arr, j_ = tgt.value.id, tgt.slice.elts[1]
+                if self.ty(j_) != "Z" or self.reads_ok(j_):
+                    raise Unsupported("column store %s" % ast.unparse(s))
+                return "let ok__ := ok__ && setcol2_ok %s %s %s in\nlet %s := setcol2 %s %s %s in\n%s" % (
+                    arr, self.ex(j_), value.id, arr, arr, self.ex(j_), value.id, self.stmts(rest, k))
+            if self.v2 and isinstance(value, ast.Call) and self.callee(value) and isinstance(tgt, ast.Subscript):
+                tmp = "tmp%d__" % self.ntmp
+                self.ntmp += 1
+                new = [ast.Assign(targets=[ast.Name(id=tmp, ctx=ast.Store())], value=value),
+                       ast.Assign(targets=[tgt], value=ast.Name(id=tmp, ctx=ast.Load()))]
+                return self.stmts(new + rest, k)
             if self.v2 and isinstance(value, ast.Call) and self.callee(value):
                 return self.call_stmt(tgt, value, rest, k)
+            if self.v2 and isinstance(s, ast.Assign) and isinstance(tgt, ast.Name) and self.view(value):
+                txt, vt, rexprs, oks = self.view(value)
+                if tgt.id in self.params or (tgt.id in self.types and self.types[tgt.id] != vt):
+                    raise Unsupported("view target %s" % tgt.id)
+                self.types[tgt.id] = vt
+                body_txt = "let %s := %s in\n%s" % (tgt.id, txt, self.stmts(rest, k))
+                if oks:
+                    body_txt = "let ok__ := ok__ && %s in\n%s" % (" && ".join(oks), body_txt)
+                return self.guard(rexprs, body_txt)
             if self.v2 and isinstance(tgt, ast.Tuple) and isinstance(value, ast.Tuple) and len(tgt.elts) == len(value.elts) \
                     and not all(isinstance(x, ast.Name) for x in tgt.elts):
                 tmps = []
@@ -636,7 +818,7 @@ class Tr:
                 return self.stmts(new + rest, k)
             if self.v2 and isinstance(tgt, ast.Tuple) and all(isinstance(x, ast.Name) for x in tgt.elts):
                 names = [x.id for x in tgt.elts]
-                if self.shape_of(value) and self.types[self.shape_of(value)] == "MT" and len(names) == 2:
+                if self.shape_of(value) and self.types[self.shape_of(value)] in ("MT", "MZ") and len(names) == 2:
                     vals = [self.shape_ex(self.shape_of(value), 0), self.shape_ex(self.shape_of(value), 1)]
                     tys = ["Z", "Z"]
                 elif isinstance(value, ast.Tuple) and len(value.elts) == len(names):
@@ -676,11 +858,11 @@ class Tr:
                     txt = "let %s := fill1 %s %s %s in\n%s" % (arr, arr, sels[0], val, self.stmts(rest, k))
                 return "let ok__ := ok__ && %s in\n%s" % (" && ".join(oks), txt) if oks else txt
             if self.v2 and isinstance(tgt, ast.Subscript) and isinstance(tgt.value, ast.Name) \
-                    and self.types.get(tgt.value.id) == "MT":
+                    and self.types.get(tgt.value.id) in ("MT", "MZ"):
                 arr = tgt.value.id
                 self.ty(tgt)
                 i_, j_ = self.ex(tgt.slice.elts[0]), self.ex(tgt.slice.elts[1])
-                val = self.exT(value, "T")
+                val = self.exT(value, "T" if self.types[arr] == "MT" else "Z")
                 oks = [r for r in (self.reads_ok(value), self.reads_ok(tgt.slice)) if r] + ["inb2 %s %s %s" % (i_, j_, arr)]
                 return "let ok__ := ok__ && %s in\nlet %s := set2 %s %s %s %s in\n%s" % (
                     " && ".join(oks), arr, arr, i_, j_, val, self.stmts(rest, k))
@@ -690,10 +872,12 @@ class Tr:
                     t = "T"
                 if tgt.id in self.types and self.types[tgt.id] != t:
                     raise Unsupported("variable %s changes type" % tgt.id)
-                if tgt.id in self.params and self.types[tgt.id] in ("LT", "LZ", "MT"):
+                if tgt.id in self.params and self.types[tgt.id] in ("LT", "LZ", "MT", "MZ"):
                     raise Unsupported("rebinding array parameter %s" % tgt.id)
-                if isinstance(t, tuple) or t in ("LT", "MT", "PO") or \
-                        (t == "LZ" and not (self.v2 and self.np_empty_int(value) is not None and tgt.id not in self.types)):
+                if isinstance(t, tuple) or t in ("LT", "PO") or \
+                        (t == "MT" and not (self.v2 and self.np_empty2(value) is not None and tgt.id not in self.types)) or \
+                        (t == "LZ" and not (self.v2 and (self.np_empty_int(value) is not None or self.np_arange(value) is not None)
+                                            and tgt.id not in self.types)):
                     raise Unsupported("assignment of %s" % ast.unparse(value))
                 val = self.exT(value, t) if self.v2 else self.ex(value)
                 txt_guard = [value]
@@ -760,6 +944,9 @@ class Tr:
             return self.loop(s, rest, k)
         if isinstance(s, ast.Expr) and isinstance(s.value, ast.Constant):
             return self.stmts(rest, k)
+        if self.v2 and isinstance(s, ast.Expr) and self.sort_call(s.value):
+            r = self.sort_call(s.value)      # in-place library sort: the extra parameter sort_ : list T -> list T
+            return "let %s := %s %s in\n%s" % (r, self.use_amb("sort_"), r, self.stmts(rest, k))
         if self.v2 and isinstance(s, ast.Expr) and isinstance(s.value, ast.Call) and self.callee(s.value):
             return self.call_stmt(None, s.value, rest, k)
         raise Unsupported("statement %s" % type(s).__name__)
@@ -784,13 +971,13 @@ class Tr:
     def has_slice(self, sl):
         return isinstance(sl, ast.Slice) or (isinstance(sl, ast.Tuple) and any(isinstance(x, ast.Slice) for x in sl.elts))
 
-    def dimsel(self, d):
+    def dimsel(self, d, allow_reads=False):
         """one dimension of a slice store: `lo:hi` (either may be omitted, negative = from the end) or an index"""
         if isinstance(d, ast.Slice):
             if d.step is not None:
                 raise Unsupported("slice step")
             for b in (d.lower, d.upper):
-                if b is not None and (self.ty(b) != "Z" or self.reads_ok(b)):
+                if b is not None and (self.ty(b) != "Z" or (self.reads_ok(b) and not allow_reads)):
                     raise Unsupported("slice bound %s" % ast.unparse(b))
             return "(Sl %s %s)" % ("(Bnd 0)" if d.lower is None else "(Bnd %s)" % self.ex(d.lower),
                                    "BndEnd" if d.upper is None else "(Bnd %s)" % self.ex(d.upper))
@@ -854,7 +1041,7 @@ class Tr:
                     raise Unsupported("aliased array argument %s" % a.id)
                 outnames.append(a.id)
                 args.append(a.id)
-            elif ptype in ("LT", "LZ", "MT"):
+            elif ptype in ("LT", "LZ", "MT", "MZ", "LB"):
                 args.append(self.array_arg(a, ptype))
             else:
                 args.append(self.exT(a, ptype))
@@ -896,6 +1083,7 @@ class Tr:
         lname = "%s_loop%d" % (self.cname, idx)
         is_for = isinstance(s, ast.For)
         pre_guard = []
+        step = 1
         if is_for:
             if not (isinstance(s.iter, ast.Call) and self.callname(s.iter) == "range" and isinstance(s.target, ast.Name)):
                 raise Unsupported("for loop over %s" % ast.unparse(s.iter))
@@ -905,6 +1093,9 @@ class Tr:
                 lo, hi = "0", self.ex(args[0])
             elif len(args) == 2:
                 lo, hi = self.ex(args[0]), self.ex(args[1])
+            elif self.v2 and len(args) == 3 and self.intlit(args[2]) == -1:
+                lo, hi = self.ex(args[0]), self.ex(args[1])     # descending: lo, lo-1, ..., hi+1
+                step = -1
             else:
                 raise Unsupported("range with step")
             ivar = s.target.id
@@ -912,7 +1103,7 @@ class Tr:
                 raise Unsupported("loop variable type")
             ivar_fresh = ivar not in self.types
             self.types[ivar] = "Z"
-            fuel = "(Z.to_nat (%s - %s))" % (hi, lo)
+            fuel = "(Z.to_nat (%s - %s))" % ((hi, lo) if step == 1 else (lo, hi))
         else:
             if self.nwhile not in self.fuels:
                 raise Unsupported("no fuel given for while loop %d" % self.nwhile)
@@ -933,7 +1124,7 @@ class Tr:
         RT = self.result_type()
         rty = "((%s) + (%s))%%type" % (RT, ctype) if has_ret else "(%s)%%type" % ctype
         wrap_inr = (lambda x: "inr %s" % x) if has_ret else (lambda x: x)
-        rec_args = " ".join(([("(%s + 1)" % ivar)] if ivar else []) + carried + free)
+        rec_args = " ".join(([("(%s %s 1)" % (ivar, "+" if step == 1 else "-"))] if ivar else []) + carried + free)
         ambtok = "\x00AMB%d\x00" % idx      # replaced by the ambient parameters used in the body, once known
         self.amb_stack.append(set())
 
@@ -951,7 +1142,7 @@ class Tr:
         used_amb = self.amb_stack.pop()
         lamb = [a for a in self.amb if a in used_amb]
         btxt = btxt.replace(ambtok, "".join(" " + a for a in lamb))
-        binders += "".join(" (%s : T)" % a for a in lamb)
+        binders += "".join(" (%s : %s)" % (a, amb_type(a)) for a in lamb)
         ctx = "{T : Type} `{Num T} " if self.generic else ""
         self.aux.append("Fixpoint %s %s(fuel : nat) %s : %s :=\n  match fuel with\n  | O => %s\n  | S fuel' =>\n%s\n  end." %
                         (lname, ctx, binders, rty, wrap_inr(ctuple), btxt))
@@ -996,7 +1187,7 @@ class Tr:
                     nd.id += "_"
             body = [st for st in body if not self.none_default(st)]
         # procedures return the arrays they store into (in parameter order)
-        stored = [v for v in self.assigned(body) if v in self.params and self.types[v] in ("LT", "LZ", "MT")]
+        stored = [v for v in self.assigned(body) if v in self.params and self.types[v] in ("LT", "LZ", "MT", "MZ")]
         self.outs = [p for p in self.params if p in stored]
 
         def end_proc():
@@ -1015,7 +1206,7 @@ class Tr:
             binders = " ".join("(%s : %s)" % (p, COQTY[t]) for p, t in self.binders)
         else:
             binders = " ".join("(%s : %s)" % (p, COQTY[dict(zip(self.params, [self.types[p] for p in self.params]))[p]]) for p in self.params)
-        binders = "".join("(%s : T) " % a for a in self.amb) + binders
+        binders = "".join("(%s : %s) " % (a, amb_type(a)) for a in self.amb) + binders
         ctx = "{T : Type} `{Num T} " if self.generic else ""
         main = "Definition %s %s%s : %s :=\n%s." % (self.cname, ctx, binders, self.result_type(), txt)
         return "\n\n".join(self.aux + [main])
@@ -1047,11 +1238,43 @@ def module_consts(tree):
     return out
 
 
+def resolve_imports(file, tree, depth=0):
+    """name -> file defining it, for `from .mod import f` / `from ..pkg import f` (followed through pkg/__init__.py)"""
+    out = {}
+    for n in tree.body:
+        if isinstance(n, ast.ImportFrom) and n.level >= 1 and n.module:
+            base = os.path.dirname(file)
+            for _ in range(n.level - 1):
+                base = os.path.dirname(base)
+            target = os.path.join(base, *n.module.split("."))
+            for a in n.names:
+                if os.path.isfile(os.path.join(REPO, target + ".py")):
+                    out[a.asname or a.name] = target + ".py"
+                elif os.path.isfile(os.path.join(REPO, target, "__init__.py")) and depth < 3:
+                    init = os.path.join(target, "__init__.py")
+                    sub = resolve_imports(init, ast.parse(open(os.path.join(REPO, init)).read()), depth + 1)
+                    if a.name in sub:
+                        out[a.asname or a.name] = sub[a.name]
+    return out
+
+
 def generate2():
+    return generate_v2(KERNELS2, "Base.Num Gen.Kernels", PRELUDE2)
+
+
+def generate3():
+    # kernels of Kernels.v that Kernels3 kernels may call (bounds-checked ones return (value, ok__) like a v2 kernel without stored arrays)
+    for cname, file, pyname, ptypes, rtype, fuels, checked in KERNELS:
+        if checked and rtype is not None:
+            CALL2[(file, pyname)] = dict(coq="gen_" + cname, params=ptypes, rtype=rtype, outs=[], amb=[], defaults={}, modconsts={})
+    return generate_v2(KERNELS3, "Base.Num Gen.Kernels Gen.Kernels2", PRELUDE3)
+
+
+def generate_v2(kernels, qe_imports, prelude):
     parts = ["(* GENERATED by harness/py2coq.py from the current source of the repository under check -- do not edit. *)",
-             "From Coq Require Import ZArith List Bool.", "From QE Require Import Base.Num Gen.Kernels.",
-             "Import ListNotations.", "Open Scope Z_scope.", "", PRELUDE2]
-    for spec in KERNELS2:
+             "From Coq Require Import ZArith List Bool.", "From QE Require Import %s." % qe_imports,
+             "Import ListNotations.", "Open Scope Z_scope.", "", prelude]
+    for spec in kernels:
         src = open(os.path.join(REPO, spec["file"])).read()
         tree = ast.parse(src)
         fn = find_func(tree, spec["py"])
@@ -1070,11 +1293,7 @@ def generate2():
             nts = [n for n in tree.body if isinstance(n, ast.Assign) and ast.unparse(n.targets[0]) == spec["result_nt"]]
             if len(nts) != 1 or not ast.unparse(nts[0].value).startswith("namedtuple('%s', ['z', 'success', 'status', 'num_iter'])" % spec["result_nt"]):
                 raise Unsupported("definition of %s changed" % spec["result_nt"])
-        imports = {}
-        for n in tree.body:
-            if isinstance(n, ast.ImportFrom) and n.level == 1 and n.module:
-                for a in n.names:
-                    imports[a.asname or a.name] = os.path.join(os.path.dirname(spec["file"]), n.module + ".py")
+        imports = resolve_imports(spec["file"], tree)
         tr = Tr("gen_" + spec["cname"], fn, spec["params"], rtype, spec["fuels"], True, v2=True,
                 modconsts=module_consts(tree), file=spec["file"], imports=imports, result_nt=spec.get("result_nt"))
         text = tr.translate()
@@ -1100,8 +1319,11 @@ def write_atomic(path, text):
 
 def main():
     rcs = 0
-    for gen, path in ((generate, OUT), (generate2, OUT2)):
-        (CALLABLE if gen is generate else CALL2).clear()
+    for gen, path in ((generate, OUT), (generate2, OUT2), (generate3, OUT3)):
+        if gen is generate:
+            CALLABLE.clear()
+        if gen is generate2:
+            CALL2.clear()
         try:
             text = gen()
             rc = 0
